@@ -1,6 +1,1128 @@
-//! Property C13 (stub with a probe)
-use crate::report::Report;
+//! Property C13 — string and number literals survive generation exactly.
+//!
+//! Correspondence: `verif_hooks::{write_string, write_interpolated_string_segment, write_number}`
+//! and the three public generators against the Lean model (`c13.str`, `c13.seg`, `c13.num`),
+//! byte-exact. Oracle: the REAL output is decoded by the Lean reference decoders
+//! (`Spec.decodeLiteral` Luau / Lua 5.1, `Spec.decodeInterpSegment`, `Spec.numberValue`) and
+//! must give back the input bytes / the same double bit for bit.
+use crate::model::{f64_wire, hex, unhex, wire_f64, Model};
+use crate::report::{known_findings, Report, Violation};
+use crate::rng::Rng;
+use darklua_core::generator::{
+    DenseLuaGenerator, LuaGenerator, ReadableLuaGenerator, TokenBasedLuaGenerator,
+};
+use darklua_core::nodes::{
+    BinaryExpression, BinaryOperator, Block, DecimalNumber, Expression, FieldExpression,
+    FunctionCall, Identifier, IndexExpression, InterpolatedStringExpression, NumberExpression,
+    Prefix, ReturnStatement, StringExpression, StringSegment, TableEntry, TableExpression,
+    TableIndexEntry,
+};
+use darklua_core::verif_hooks as hooks;
+use darklua_core::Parser;
+use serde_json::{json, Value};
+use std::panic::{catch_unwind, AssertUnwindSafe};
 
-pub fn run(report: &mut Report, _replay: Option<&str>) {
-    report.notes.push(format!("probe: {:?}", darklua_core::verif_hooks::write_string(b"")));
+const THREADS: usize = 16;
+
+fn guarded<T>(f: impl FnOnce() -> T) -> Result<T, String> {
+    catch_unwind(AssertUnwindSafe(f)).map_err(|e| {
+        if let Some(s) = e.downcast_ref::<String>() {
+            s.clone()
+        } else if let Some(s) = e.downcast_ref::<&str>() {
+            (*s).to_owned()
+        } else {
+            "panic".to_owned()
+        }
+    })
+}
+
+/// run `work` over `items` on up to THREADS threads, one Lean driver per thread, order kept
+fn par_chunks<I: Sync, O: Send>(
+    items: &[I],
+    work: impl Fn(&mut Model, &[I]) -> Vec<O> + Sync,
+) -> Vec<O> {
+    if items.is_empty() {
+        return Vec::new();
+    }
+    let n = THREADS.min(items.len().div_ceil(64)).max(1);
+    let size = items.len().div_ceil(n);
+    let mut results: Vec<Vec<O>> = Vec::new();
+    std::thread::scope(|scope| {
+        let handles: Vec<_> = items
+            .chunks(size)
+            .map(|chunk| {
+                let work = &work;
+                scope.spawn(move || {
+                    let mut model = Model::spawn();
+                    let mut out = Vec::with_capacity(chunk.len());
+                    for sub in chunk.chunks(4096) {
+                        out.extend(work(&mut model, sub));
+                    }
+                    out
+                })
+            })
+            .collect();
+        for h in handles {
+            results.push(h.join().expect("worker thread panicked"));
+        }
+    });
+    results.into_iter().flatten().collect()
+}
+
+// ------------------------------------------------------------------------------------------
+// strings
+// ------------------------------------------------------------------------------------------
+
+#[derive(Clone)]
+struct StrCase {
+    family: &'static str,
+    v: Vec<u8>,
+}
+
+struct StrOutcome {
+    real: Result<Vec<u8>, String>,
+    /// outputs of the three generators that differ from the hook's output
+    gen_diff: Vec<(String, String)>,
+    model: String,
+    dec_luau: String,
+    dec_51: String,
+    straddles: bool,
+    safe51: bool,
+    longform: bool,
+}
+
+fn real_write_string(v: &[u8]) -> Result<Vec<u8>, String> {
+    guarded(|| hooks::write_string(v).into_bytes())
+}
+
+fn generator_outputs(expr: &Expression) -> Vec<(String, Result<String, String>)> {
+    vec![
+        (
+            "dense".to_owned(),
+            guarded(|| {
+                let mut g = DenseLuaGenerator::new(80);
+                g.write_expression(expr);
+                g.into_string()
+            }),
+        ),
+        (
+            "readable".to_owned(),
+            guarded(|| {
+                let mut g = ReadableLuaGenerator::new(80);
+                g.write_expression(expr);
+                g.into_string()
+            }),
+        ),
+        (
+            "token_based".to_owned(),
+            guarded(|| {
+                let mut g = TokenBasedLuaGenerator::new("");
+                g.write_expression(expr);
+                g.into_string()
+            }),
+        ),
+    ]
+}
+
+fn run_str_cases(cases: &[StrCase], with_generators: bool) -> Vec<StrOutcome> {
+    par_chunks(cases, |model, chunk| {
+        let reals: Vec<Result<Vec<u8>, String>> =
+            chunk.iter().map(|c| real_write_string(&c.v)).collect();
+        let lines: Vec<String> = chunk
+            .iter()
+            .zip(&reals)
+            .map(|(c, r)| {
+                format!(
+                    "c13.str {} {}",
+                    hex(&c.v),
+                    hex(r.as_deref().unwrap_or(&[]))
+                )
+            })
+            .collect();
+        let answers = model.ask_batch(&lines);
+        chunk
+            .iter()
+            .zip(reals)
+            .zip(answers)
+            .map(|((c, real), answer)| {
+                let parts: Vec<&str> = answer.split(' ').collect();
+                let get = |i: usize| parts.get(i).copied().unwrap_or("?").to_owned();
+                let mut gen_diff = Vec::new();
+                if with_generators {
+                    if let Ok(r) = &real {
+                        let expected = String::from_utf8_lossy(r).into_owned();
+                        let expr: Expression = StringExpression::from_value(c.v.clone()).into();
+                        for (name, out) in generator_outputs(&expr) {
+                            match out {
+                                // a generator may break the line before a token that does not
+                                // fit its column span: leading blanks are not part of the literal
+                                Ok(s) if s.trim_start_matches([' ', '\n']) == expected => {}
+                                Ok(s) => gen_diff.push((name, s)),
+                                Err(e) => gen_diff.push((name, format!("panic: {}", e))),
+                            }
+                        }
+                    }
+                }
+                StrOutcome {
+                    real,
+                    gen_diff,
+                    model: get(0),
+                    dec_luau: get(1),
+                    dec_51: get(2),
+                    straddles: get(3) == "true",
+                    safe51: get(4) == "true",
+                    longform: get(5) == "true",
+                }
+            })
+            .collect()
+    })
+}
+
+fn str_input(c: &StrCase) -> Value {
+    json!({"kind": "string", "family": c.family, "bytes_hex": hex(&c.v),
+           "ascii": String::from_utf8_lossy(&c.v)})
+}
+
+/// does the property's oracle fail on the real code for `v` (outside the recorded F14 region)?
+fn str_oracle_fails(model: &mut Model, v: &[u8]) -> Option<String> {
+    let real = match real_write_string(v) {
+        Ok(r) => r,
+        Err(e) => return Some(format!("write_string panicked: {}", e)),
+    };
+    let answer = model.ask(&format!("c13.str {} {}", hex(v), hex(&real)));
+    let parts: Vec<&str> = answer.split(' ').collect();
+    if parts.len() < 6 {
+        return None;
+    }
+    let expected = format!("some:{}", hex(v));
+    if parts[1] != expected && parts[3] != "true" {
+        return Some(format!(
+            "write_string gives {:?}, which Luau reads as {}",
+            String::from_utf8_lossy(&real),
+            parts[1]
+        ));
+    }
+    None
+}
+
+/// budgeted search around `v` for an input on which the oracle fails on the real code
+fn search_str_failure(v: &[u8], rng: &mut Rng) -> Option<(Vec<u8>, String)> {
+    let mut model = Model::spawn();
+    let interesting: &[u8] = b"]=[\n\\'\"0 9x\x00\x01\x1b\x7f\x80\xc3\xa9\xff";
+    let mut candidates: Vec<Vec<u8>> = vec![v.to_vec()];
+    for i in 0..v.len().min(80) {
+        let mut w = v.to_vec();
+        w.remove(i);
+        candidates.push(w);
+        for &b in interesting.iter().take(8) {
+            let mut w = v.to_vec();
+            w[i] = b;
+            candidates.push(w);
+        }
+    }
+    for &b in interesting {
+        let mut w = v.to_vec();
+        w.push(b);
+        candidates.push(w);
+        let mut w = v.to_vec();
+        w.insert(0, b);
+        candidates.push(w);
+    }
+    for _ in 0..1500 {
+        let mut w = v.to_vec();
+        for _ in 0..(1 + rng.below(3)) {
+            match rng.below(3) {
+                0 if !w.is_empty() => {
+                    let i = rng.below(w.len());
+                    w[i] = *rng.pick(interesting);
+                }
+                1 => {
+                    let i = rng.below(w.len() + 1);
+                    w.insert(i, *rng.pick(interesting));
+                }
+                _ if !w.is_empty() => {
+                    let i = rng.below(w.len());
+                    w.remove(i);
+                }
+                _ => {}
+            }
+        }
+        candidates.push(w);
+    }
+    for w in candidates {
+        if let Some(what) = str_oracle_fails(&mut model, &w) {
+            return Some((w, what));
+        }
+    }
+    None
+}
+
+fn evaluate_str(report: &mut Report, cases: &[StrCase], outcomes: &[StrOutcome], rng: &mut Rng) {
+    for (c, o) in cases.iter().zip(outcomes) {
+        let expected = format!("some:{}", hex(&c.v));
+        let real = match &o.real {
+            Ok(r) => r,
+            Err(e) => {
+                report.case(Some(&c.v));
+                report.violation(Violation {
+                    kind: "oracle".into(),
+                    check: "write_string-panics".into(),
+                    what: format!("write_string panicked: {}", e),
+                    input: str_input(c),
+                    failing_input_found: true,
+                });
+                continue;
+            }
+        };
+        // non-trivial: anything but `'` + the bytes unchanged + `'`
+        let mut plain = vec![b'\''];
+        plain.extend_from_slice(&c.v);
+        plain.push(b'\'');
+        let nontrivial = *real != plain;
+        report.case(if nontrivial { Some(("s", &c.v)) } else { None });
+        report.hist("string-family", c.family);
+        let form = if real.first() == Some(&b'[') {
+            "long-bracket"
+        } else if real.first() == Some(&b'"') {
+            "double-quoted"
+        } else {
+            "single-quoted"
+        };
+        report.hist("string-form", form);
+        if o.longform != (form == "long-bracket") {
+            report.violation(Violation {
+                kind: "correspondence".into(),
+                check: "string-form".into(),
+                what: format!("model long-bracket={} but real output is {}", o.longform, form),
+                input: str_input(c),
+                failing_input_found: false,
+            });
+        }
+        let oracle_luau_ok = o.dec_luau == expected;
+        let oracle_51_ok = o.dec_51 == expected;
+        // ---- oracle (Luau)
+        if !oracle_luau_ok {
+            if o.straddles {
+                report.hist("string-oracle", "fails-inside-F14-region(recorded)");
+            } else {
+                report.violation(Violation {
+                    kind: "oracle".into(),
+                    check: "string-roundtrip-luau".into(),
+                    what: format!(
+                        "write_string gives {:?}; Luau reads that as {} instead of the value",
+                        String::from_utf8_lossy(real),
+                        o.dec_luau
+                    ),
+                    input: str_input(c),
+                    failing_input_found: true,
+                });
+            }
+        } else {
+            report.hist("string-oracle", "ok");
+        }
+        // ---- oracle (Lua 5.1), demanded only when no \u{} is needed
+        if !oracle_51_ok {
+            if o.safe51 {
+                report.violation(Violation {
+                    kind: "oracle".into(),
+                    check: "string-roundtrip-lua51".into(),
+                    what: format!(
+                        "write_string gives {:?}; Lua 5.1 reads that as {} instead of the value",
+                        String::from_utf8_lossy(real),
+                        o.dec_51
+                    ),
+                    input: str_input(c),
+                    failing_input_found: true,
+                });
+            } else {
+                report.hist("string-oracle-lua51", "fails-outside-lua51Safe(\\u / F14 / F14b)");
+            }
+        } else {
+            report.hist("string-oracle-lua51", "ok");
+        }
+        // ---- correspondence
+        if o.model != hex(real) {
+            let found = if oracle_luau_ok || o.straddles {
+                search_str_failure(&c.v, rng)
+            } else {
+                None // the oracle violation on this very input is already reported
+            };
+            match found {
+                Some((w, what)) => report.violation(Violation {
+                    kind: "oracle".into(),
+                    check: "string-roundtrip-luau".into(),
+                    what,
+                    input: json!({"kind": "string", "family": "search", "bytes_hex": hex(&w),
+                        "ascii": String::from_utf8_lossy(&w), "found_from": hex(&c.v)}),
+                    failing_input_found: true,
+                }),
+                None if oracle_luau_ok || o.straddles => report.violation(Violation {
+                    kind: "correspondence".into(),
+                    check: "write_string".into(),
+                    what: format!(
+                        "model {:?} != real {:?}",
+                        unhex(&o.model).map(|b| String::from_utf8_lossy(&b).into_owned()),
+                        String::from_utf8_lossy(real)
+                    ),
+                    input: str_input(c),
+                    failing_input_found: false,
+                }),
+                None => {}
+            }
+        }
+        for (name, out) in &o.gen_diff {
+            report.violation(Violation {
+                kind: "correspondence".into(),
+                check: format!("generator-{}", name),
+                what: format!(
+                    "{} generator writes {:?}, write_string gives {:?}",
+                    name,
+                    out,
+                    String::from_utf8_lossy(real)
+                ),
+                input: str_input(c),
+                failing_input_found: false,
+            });
+        }
+        if nontrivial && report.samples.len() < 6 && (c.v.len() > 2 || c.v.len() == 2 && c.v[0] < 32)
+        {
+            report.sample(json!({"value_hex": hex(&c.v), "written": String::from_utf8_lossy(real),
+                "luau": o.dec_luau, "lua51": o.dec_51}));
+        }
+    }
+}
+
+const REDUCED: &[u8] = &[
+    0, 7, 10, 13, 27, b' ', b'"', b'\'', b'0', b'9', b'a', b'\\', b']', b'[', b'=', 0x7f, 0x80,
+    0xc3, 0xa9, 0xe2, 0xff, b'`', b'{',
+];
+
+fn utf8(cp: u32) -> Vec<u8> {
+    char::from_u32(cp).unwrap().to_string().into_bytes()
+}
+
+fn exhaustive_small() -> Vec<StrCase> {
+    let mut out = vec![StrCase { family: "exhaustive<=2", v: vec![] }];
+    for a in 0..=255u8 {
+        out.push(StrCase { family: "exhaustive<=2", v: vec![a] });
+    }
+    for a in 0..=255u8 {
+        for b in 0..=255u8 {
+            out.push(StrCase { family: "exhaustive<=2", v: vec![a, b] });
+        }
+    }
+    out
+}
+
+fn reduced_three() -> Vec<StrCase> {
+    let mut out = Vec::new();
+    for &a in REDUCED {
+        for &b in REDUCED {
+            for &c in REDUCED {
+                out.push(StrCase { family: "reduced-alphabet-3", v: vec![a, b, c] });
+            }
+        }
+    }
+    out
+}
+
+fn structured_strings() -> Vec<StrCase> {
+    let mut out: Vec<StrCase> = Vec::new();
+    let mut push = |family: &'static str, v: Vec<u8>| out.push(StrCase { family, v });
+    // every byte followed by every digit, alone and inside a longer string, both paths
+    for a in 0..=255u8 {
+        for d in b'0'..=b'9' {
+            push("byte-then-digit", vec![b'k', a, d, b'z']);
+            push("byte-then-digit", vec![0xff, a, d]); // invalid UTF-8: byte path
+        }
+    }
+    // multi-byte chars; chars whose low byte is an ASCII digit (the `c as u8` truncation)
+    let cps: Vec<u32> = vec![
+        0x80, 0xe9, 0x7ff, 0x800, 0xffff, 0xfffd, 0x10000, 0x10ffff, 0xd7ff, 0xe000, 0x130, 0x131,
+        0x139, 0x2030, 0x2039, 0x10030, 0x10ff39, 0x12f, 0x13a, 0x25c1,
+    ];
+    for &cp in &cps {
+        for lead in [0u8, 1, 27, 31, 127, b'a'] {
+            let mut v = vec![lead];
+            v.extend(utf8(cp));
+            push("utf8-after-control", v.clone());
+            v.push(b'7');
+            push("utf8-then-digit", v.clone());
+            v.insert(0, b'\'');
+            v.push(b'"');
+            push("utf8-both-quotes", v);
+        }
+        let mut v = utf8(cp);
+        v.extend(utf8(cp));
+        push("utf8-pair", v);
+    }
+    // invalid UTF-8 families
+    let invalid: Vec<Vec<u8>> = vec![
+        vec![0xc0, 0x80],
+        vec![0xc1, 0xbf],
+        vec![0xe0, 0x80, 0x80],
+        vec![0xe0, 0x9f, 0xbf],
+        vec![0xed, 0xa0, 0x80],
+        vec![0xed, 0xbf, 0xbf],
+        vec![0xf0, 0x80, 0x80, 0x80],
+        vec![0xf0, 0x8f, 0xbf, 0xbf],
+        vec![0xf4, 0x90, 0x80, 0x80],
+        vec![0xf5, 0x80, 0x80, 0x80],
+        vec![0xf8, 0x88, 0x80, 0x80, 0x80],
+        vec![0xc3],
+        vec![0xe2, 0x82],
+        vec![0xf0, 0x9f, 0x98],
+        vec![0x80],
+        vec![0xbf, 0xbf],
+        vec![0xfe],
+        vec![0xff],
+        vec![0xc3, 0x28],
+        vec![0xe2, 0x28, 0xa1],
+    ];
+    for inv in &invalid {
+        push("invalid-utf8", inv.clone());
+        for tail in [&b"1"[..], b"'", b"\"'", b"\n", b"\\", b"a\x001"] {
+            let mut v = inv.clone();
+            v.extend_from_slice(tail);
+            push("invalid-utf8", v.clone());
+            let mut w = b"ok \xc3\xa9 ".to_vec();
+            w.extend(v);
+            push("invalid-utf8", w);
+        }
+    }
+    // quotes and backslashes
+    for s in [
+        &b"'"[..], b"\"", b"'\"", b"\"'", b"''", b"\"\"", b"it's", b"say \"hi\"", b"'\"'\"",
+        b"\\", b"\\\\", b"\\'", b"\\\"", b"\\n", b"a\\", b"\\0", b"\\u{41}", b"\\x41", b"\\z  a",
+        b"\\\n", b"\r\n", b"\n\r", b"\0", b"\x000", b"a\0b",
+    ] {
+        push("quotes-backslashes", s.to_vec());
+        let mut long = s.to_vec();
+        long.extend(std::iter::repeat(b'x').take(70));
+        push("quotes-backslashes-long", long);
+    }
+    // long-bracket candidates: lengths around the thresholds × fillers × decorations
+    let decorations: Vec<(&[u8], &[u8])> = vec![
+        (b"", b""),
+        (b"\n", b""),
+        (b"\n\n", b""),
+        (b"", b"]"),
+        (b"", b"]]"),
+        (b"", b"]="),
+        (b"", b"]=="),
+        (b"", b"]==="),
+        (b"]]", b""),
+        (b"]]", b"]"),
+        (b"]]", b"]="), // F14 region
+        (b"]]]=]", b"]=="), // F14 region, level 2
+        (b"]]]=]", b"]="),
+        (b"]=]", b""),
+        (b"]=]", b"]"),
+        (b"]=]", b"]="),
+        (b"]==]]=]]]", b""),
+        (b"]==]]=]]]", b"]==="), // F14 region, level 3
+        (b"[[", b""),
+        (b"[=[", b"]"),
+        (b"[", b"["),
+        (b"=", b"="),
+        (b"[[nested]]", b""),
+        (b"\n]]", b"]="),
+        (b"", b"\n"),
+        (b"--", b""),
+        (b"", b"\\"),
+        (b"'", b"\""),
+    ];
+    for len in [18usize, 19, 20, 21, 22, 58, 59, 60, 61, 62, 70] {
+        for newlines in [0usize, 5, 6, 7] {
+            for (pre, post) in &decorations {
+                let mut v = pre.to_vec();
+                let fill = len.saturating_sub(pre.len() + post.len());
+                for i in 0..fill {
+                    // spread the newlines through the filler
+                    if newlines > 0 && i < newlines * 2 && i % 2 == 1 {
+                        v.push(b'\n');
+                    } else {
+                        v.push(b'x');
+                    }
+                }
+                v.extend_from_slice(post);
+                push("long-bracket-candidates", v.clone());
+                // one byte that forces the quoted form
+                for forced in [&b"\t"[..], b"\r", b"\x7f", b"\xc3\xa9", b"\xff", b"\0"] {
+                    let mut w = v.clone();
+                    let at = w.len() / 2;
+                    for (k, b) in forced.iter().enumerate() {
+                        w.insert(at + k, *b);
+                    }
+                    push("long-but-forced-quoted", w);
+                }
+            }
+        }
+    }
+    out
+}
+
+fn random_string(rng: &mut Rng) -> StrCase {
+    match rng.below(5) {
+        0 => {
+            // long-bracket material: brackets, equals, newlines, filler
+            let len = 18 + rng.below(70);
+            let alphabet: &[u8] = b"]]]===[[\nxx y";
+            let mut v: Vec<u8> = (0..len).map(|_| *rng.pick(alphabet)).collect();
+            if rng.chance(1, 2) {
+                // end in `]` `=`*  — the neighbourhood of F14
+                v.push(b']');
+                for _ in 0..rng.below(4) {
+                    v.push(b'=');
+                }
+            }
+            StrCase { family: "random-bracket-soup", v }
+        }
+        1 => {
+            let len = rng.below(12);
+            let v = (0..len).map(|_| (rng.next_u64() & 0xff) as u8).collect();
+            StrCase { family: "random-bytes", v }
+        }
+        2 => {
+            // valid UTF-8 text with escapes and digits
+            let n = 1 + rng.below(10);
+            let mut v = Vec::new();
+            for _ in 0..n {
+                match rng.below(6) {
+                    0 => v.push(b'0' + rng.below(10) as u8),
+                    1 => v.push(rng.below(32) as u8),
+                    2 => v.push(*rng.pick(b"'\"\\`{]")),
+                    3 => {
+                        let cp = match rng.below(4) {
+                            0 => 0x80 + rng.below(0x780) as u32,
+                            1 => 0x800 + rng.below(0xd000) as u32,
+                            2 => 0xe000 + rng.below(0x2000) as u32,
+                            _ => 0x10000 + rng.below(0x100000) as u32,
+                        };
+                        v.extend(utf8(cp));
+                    }
+                    4 => {
+                        // char whose low byte is a digit
+                        let cp = ((1 + rng.below(0x100)) as u32) << 8 | (0x30 + rng.below(10) as u32);
+                        if let Some(c) = char::from_u32(cp) {
+                            v.extend(c.to_string().into_bytes());
+                        }
+                    }
+                    _ => v.push(0x20 + rng.below(0x5f) as u8),
+                }
+            }
+            StrCase { family: "random-utf8-text", v }
+        }
+        3 => {
+            let len = rng.below(90);
+            let v = (0..len).map(|_| *rng.pick(REDUCED)).collect();
+            StrCase { family: "random-reduced", v }
+        }
+        _ => {
+            // printable text, sometimes many lines
+            let len = 15 + rng.below(80);
+            let nl = rng.below(9);
+            let mut v: Vec<u8> = (0..len).map(|_| 0x20 + rng.below(0x5f) as u8).collect();
+            for _ in 0..nl {
+                let i = rng.below(v.len());
+                v[i] = b'\n';
+            }
+            StrCase { family: "random-printable", v }
+        }
+    }
+}
+
+// ------------------------------------------------------------------------------------------
+// interpolated string segments
+// ------------------------------------------------------------------------------------------
+
+struct SegOutcome {
+    real: Result<Vec<u8>, String>,
+    gen_ok: bool,
+    model: String,
+    dec_tick: String,
+    dec_brace: String,
+}
+
+fn real_segment(v: &[u8]) -> Result<Vec<u8>, String> {
+    guarded(|| {
+        hooks::write_interpolated_string_segment(&StringSegment::from_value(v.to_vec())).into_bytes()
+    })
+}
+
+fn run_seg_cases(cases: &[StrCase]) -> Vec<SegOutcome> {
+    par_chunks(cases, |model, chunk| {
+        let reals: Vec<Result<Vec<u8>, String>> = chunk.iter().map(|c| real_segment(&c.v)).collect();
+        let lines: Vec<String> = chunk
+            .iter()
+            .zip(&reals)
+            .map(|(c, r)| format!("c13.seg {} {}", hex(&c.v), hex(r.as_deref().unwrap_or(&[]))))
+            .collect();
+        let answers = model.ask_batch(&lines);
+        chunk
+            .iter()
+            .zip(reals)
+            .zip(answers)
+            .map(|((c, real), answer)| {
+                let parts: Vec<&str> = answer.split(' ').collect();
+                let get = |i: usize| parts.get(i).copied().unwrap_or("?").to_owned();
+                // through the public generator: `…` around the segment (non-empty segments only)
+                let mut gen_ok = true;
+                if let (Ok(r), false) = (&real, c.v.is_empty()) {
+                    let expr: Expression = InterpolatedStringExpression::empty()
+                        .with_segment(StringSegment::from_value(c.v.clone()))
+                        .into();
+                    let mut expected = vec![b'`'];
+                    expected.extend_from_slice(r);
+                    expected.push(b'`');
+                    let out = guarded(|| {
+                        let mut g = DenseLuaGenerator::new(80);
+                        g.write_expression(&expr);
+                        g.into_string()
+                    });
+                    gen_ok = out
+                        .map(|s| s.trim_start_matches([' ', '\n']).as_bytes() == &expected[..])
+                        .unwrap_or(false);
+                }
+                SegOutcome { real, gen_ok, model: get(0), dec_tick: get(1), dec_brace: get(2) }
+            })
+            .collect()
+    })
+}
+
+fn evaluate_seg(report: &mut Report, cases: &[StrCase], outcomes: &[SegOutcome]) {
+    for (c, o) in cases.iter().zip(outcomes) {
+        let input = json!({"kind": "segment", "family": c.family, "bytes_hex": hex(&c.v)});
+        let real = match &o.real {
+            Ok(r) => r,
+            Err(e) => {
+                report.case(Some(("g", &c.v)));
+                report.violation(Violation {
+                    kind: "oracle".into(),
+                    check: "segment-panics".into(),
+                    what: format!("write_interpolated_string_segment panicked: {}", e),
+                    input,
+                    failing_input_found: true,
+                });
+                continue;
+            }
+        };
+        let nontrivial = *real != c.v;
+        report.case(if nontrivial { Some(("g", &c.v)) } else { None });
+        report.hist("segment-family", c.family);
+        let want_tick = format!("some:{}:x60", hex(&c.v));
+        let want_brace = format!("some:{}:x7b787d", hex(&c.v));
+        if o.dec_tick != want_tick || o.dec_brace != want_brace {
+            report.violation(Violation {
+                kind: "oracle".into(),
+                check: "segment-roundtrip".into(),
+                what: format!(
+                    "segment written as {:?}; Luau reads {} / {}",
+                    String::from_utf8_lossy(real),
+                    o.dec_tick,
+                    o.dec_brace
+                ),
+                input: input.clone(),
+                failing_input_found: true,
+            });
+        } else if o.model != hex(real) {
+            report.violation(Violation {
+                kind: "correspondence".into(),
+                check: "write_interpolated_string_segment".into(),
+                what: format!(
+                    "model {:?} != real {:?}",
+                    unhex(&o.model).map(|b| String::from_utf8_lossy(&b).into_owned()),
+                    String::from_utf8_lossy(real)
+                ),
+                input: input.clone(),
+                failing_input_found: false,
+            });
+        }
+        if !o.gen_ok {
+            report.violation(Violation {
+                kind: "correspondence".into(),
+                check: "generator-interpolated".into(),
+                what: "dense generator output is not ` + segment + `".into(),
+                input,
+                failing_input_found: false,
+            });
+        }
+    }
+}
+
+// ------------------------------------------------------------------------------------------
+// literals next to neighbouring tokens, through the three generators, parsed back
+// ------------------------------------------------------------------------------------------
+
+fn string_values(block: &Block) -> Option<Vec<Vec<u8>>> {
+    // the contexts below are all `return <expr>`; collect string values left to right
+    fn walk(e: &Expression, out: &mut Vec<Vec<u8>>) {
+        match e {
+            Expression::String(s) => out.push(s.get_value().to_vec()),
+            Expression::Binary(b) => {
+                walk(b.left(), out);
+                walk(b.right(), out);
+            }
+            Expression::Parenthese(p) => walk(p.inner_expression(), out),
+            Expression::Index(i) => {
+                walk_prefix(i.get_prefix(), out);
+                walk(i.get_index(), out);
+            }
+            Expression::Field(f) => walk_prefix(f.get_prefix(), out),
+            Expression::Call(c) => walk_call(c, out),
+            Expression::Table(t) => {
+                for entry in t.iter_entries() {
+                    match entry {
+                        TableEntry::Index(i) => {
+                            walk(i.get_key(), out);
+                            walk(i.get_value(), out);
+                        }
+                        TableEntry::Value(v) => walk(v, out),
+                        TableEntry::Field(f) => walk(f.get_value(), out),
+                    }
+                }
+            }
+            _ => {}
+        }
+    }
+    fn walk_prefix(p: &Prefix, out: &mut Vec<Vec<u8>>) {
+        match p {
+            Prefix::Parenthese(p) => walk(p.inner_expression(), out),
+            Prefix::Call(c) => walk_call(c, out),
+            Prefix::Index(i) => {
+                walk_prefix(i.get_prefix(), out);
+                walk(i.get_index(), out);
+            }
+            Prefix::Field(f) => walk_prefix(f.get_prefix(), out),
+            _ => {}
+        }
+    }
+    fn walk_call(c: &FunctionCall, out: &mut Vec<Vec<u8>>) {
+        walk_prefix(c.get_prefix(), out);
+        match c.get_arguments() {
+            darklua_core::nodes::Arguments::String(s) => out.push(s.get_value().to_vec()),
+            darklua_core::nodes::Arguments::Tuple(t) => {
+                for v in t.iter_values() {
+                    walk(v, out);
+                }
+            }
+            darklua_core::nodes::Arguments::Table(t) => {
+                walk(&Expression::Table(t.clone()), out)
+            }
+        }
+    }
+    let mut out = Vec::new();
+    match block.get_last_statement()? {
+        darklua_core::nodes::LastStatement::Return(r) => {
+            for e in r.iter_expressions() {
+                walk(e, &mut out);
+            }
+        }
+        _ => return None,
+    }
+    Some(out)
+}
+
+fn neighbour_contexts(v: &[u8]) -> Vec<(&'static str, Expression, usize)> {
+    let s = || StringExpression::from_value(v.to_vec());
+    let id = |n: &str| Expression::Identifier(Identifier::new(n));
+    vec![
+        ("concat-right", BinaryExpression::new(BinaryOperator::Concat, id("a"), s()).into(), 1),
+        ("concat-left", BinaryExpression::new(BinaryOperator::Concat, s(), id("a")).into(), 1),
+        ("concat-both", BinaryExpression::new(BinaryOperator::Concat, s(), s()).into(), 2),
+        (
+            "index",
+            IndexExpression::new(Prefix::from_name("t"), s()).into(),
+            1,
+        ),
+        (
+            "table-key",
+            TableExpression::new(vec![TableEntry::Index(Box::new(TableIndexEntry::new(s(), s())))]).into(),
+            2,
+        ),
+        (
+            "call-string-argument",
+            FunctionCall::from_name("f").with_argument(s()).into(),
+            1,
+        ),
+        (
+            "call-arguments-string",
+            FunctionCall::from_name("f")
+                .with_arguments(darklua_core::nodes::Arguments::String(s()))
+                .into(),
+            1,
+        ),
+        (
+            "field-of-parenthesised",
+            FieldExpression::new(
+                Prefix::Parenthese(Box::new(darklua_core::nodes::ParentheseExpression::new(s()))),
+                Identifier::new("len"),
+            )
+            .into(),
+            1,
+        ),
+        (
+            "less-than",
+            BinaryExpression::new(BinaryOperator::LowerThan, s(), s()).into(),
+            2,
+        ),
+    ]
+}
+
+fn check_neighbours(report: &mut Report, values: &[Vec<u8>]) {
+    // only values whose own literal is right (the F14 region is excluded by asking the model)
+    let mut model = Model::spawn();
+    let parser = Parser::default();
+    for v in values {
+        if model.ask(&format!("c13.straddles {}", hex(v))) != "false" {
+            report.hist("neighbour", "skipped(F14 region)");
+            continue;
+        }
+        for (ctx, expr, count) in neighbour_contexts(v) {
+            let block = Block::default().with_last_statement(ReturnStatement::one(expr));
+            let outputs: Vec<(&str, Result<String, String>)> = vec![
+                (
+                    "dense",
+                    guarded(|| {
+                        let mut g = DenseLuaGenerator::new(80);
+                        g.write_block(&block);
+                        g.into_string()
+                    }),
+                ),
+                (
+                    "readable",
+                    guarded(|| {
+                        let mut g = ReadableLuaGenerator::new(80);
+                        g.write_block(&block);
+                        g.into_string()
+                    }),
+                ),
+                (
+                    "token_based",
+                    guarded(|| {
+                        let mut g = TokenBasedLuaGenerator::new("");
+                        g.write_block(&block);
+                        g.into_string()
+                    }),
+                ),
+            ];
+            for (gname, out) in outputs {
+                report.case(Some(("n", ctx, gname, v)));
+                report.hist("neighbour", &format!("{}/{}", gname, ctx));
+                let input = json!({"kind": "neighbour", "context": ctx, "generator": gname,
+                    "bytes_hex": hex(v)});
+                let code = match out {
+                    Ok(c) => c,
+                    Err(e) => {
+                        report.violation(Violation {
+                            kind: "oracle".into(),
+                            check: "neighbour-panics".into(),
+                            what: format!("generator panicked: {}", e),
+                            input,
+                            failing_input_found: true,
+                        });
+                        continue;
+                    }
+                };
+                let parsed = guarded(|| parser.parse(&code));
+                let values_back = match parsed {
+                    Ok(Ok(b)) => string_values(&b),
+                    _ => None,
+                };
+                let want: Vec<Vec<u8>> = (0..count).map(|_| v.clone()).collect();
+                if values_back.as_ref() != Some(&want) {
+                    report.violation(Violation {
+                        kind: "oracle".into(),
+                        check: "neighbour-roundtrip".into(),
+                        what: format!(
+                            "{} writes {:?}; parsing it back gives string values {:?}",
+                            gname,
+                            code,
+                            values_back.map(|vs| vs
+                                .iter()
+                                .map(|b| String::from_utf8_lossy(b).into_owned())
+                                .collect::<Vec<_>>())
+                        ),
+                        input,
+                        failing_input_found: true,
+                    });
+                }
+            }
+        }
+    }
+}
+
+// ------------------------------------------------------------------------------------------
+// known findings
+// ------------------------------------------------------------------------------------------
+
+fn replay_known(report: &mut Report) {
+    let mut model = Model::spawn();
+    for k in known_findings("C13") {
+        let id = k["id"].as_str().unwrap_or("?").to_owned();
+        let w = &k["witness"];
+        match w["kind"].as_str() {
+            Some("string") => {
+                let Some(v) = w["bytes_hex"].as_str().and_then(unhex) else { continue };
+                let dialect = w["dialect"].as_str().unwrap_or("luau");
+                let Ok(real) = real_write_string(&v) else { continue };
+                let answer = model.ask(&format!("c13.decode {} {}", dialect, hex(&real)));
+                if answer != format!("some {}", hex(&v)) {
+                    report.known_finding(
+                        &id,
+                        &format!(
+                            "write_string({:?}) = {:?}, which {} reads as {}",
+                            String::from_utf8_lossy(&v),
+                            String::from_utf8_lossy(&real),
+                            dialect,
+                            answer
+                        ),
+                    );
+                }
+            }
+            _ => {}
+        }
+    }
+}
+
+fn replay_corpus(report: &mut Report, rng: &mut Rng) {
+    let dir = concat!(env!("CARGO_MANIFEST_DIR"), "/../corpus/C13");
+    let mut cases = Vec::new();
+    if let Ok(entries) = std::fs::read_dir(dir) {
+        let mut paths: Vec<_> = entries.flatten().map(|e| e.path()).collect();
+        paths.sort();
+        for p in paths {
+            if let Ok(text) = std::fs::read_to_string(&p) {
+                for line in text.lines() {
+                    let line = line.trim();
+                    if line.is_empty() || line.starts_with('#') {
+                        continue;
+                    }
+                    if let Some(v) = unhex(line) {
+                        cases.push(StrCase { family: "corpus", v });
+                    }
+                }
+            }
+        }
+    }
+    report.count("corpus_strings", cases.len() as u64);
+    let outcomes = run_str_cases(&cases, true);
+    evaluate_str(report, &cases, &outcomes, rng);
+}
+
+pub fn run(report: &mut Report, replay: Option<&str>) {
+    let mut rng = Rng::new(report.seed);
+    report.rule = "strings: every byte string of length <= 2, every 3-string over a 23-byte alphabet, \
+        structured families (byte x digit, multi-byte chars incl. low-byte-is-digit, invalid UTF-8, quotes, \
+        backslashes, long-bracket candidates around lengths 20/60 and 5-7 newlines with ]]/]=]/]= decorations), \
+        then seeded random; a case counts as non-trivial when the written text is not just the bytes between \
+        single quotes (strings), not the bytes unchanged (segments), or the literal is not a plain integer (numbers)"
+        .to_owned();
+
+    if let Some(path) = replay {
+        if let Ok(text) = std::fs::read_to_string(path) {
+            if let Ok(v) = serde_json::from_str::<Value>(&text) {
+                let input = &v["input"];
+                if let Some(bytes) = input["bytes_hex"].as_str().and_then(unhex) {
+                    let cases = vec![StrCase { family: "replay", v: bytes }];
+                    if input["kind"] == "segment" {
+                        let o = run_seg_cases(&cases);
+                        evaluate_seg(report, &cases, &o);
+                    } else {
+                        let o = run_str_cases(&cases, true);
+                        evaluate_str(report, &cases, &o, &mut rng);
+                        check_neighbours(report, &[cases[0].v.clone()]);
+                    }
+                    return;
+                }
+            }
+        }
+        report.notes.push("replay file not understood; running the normal tier".to_owned());
+    }
+
+    replay_known(report);
+    replay_corpus(report, &mut rng);
+
+    // ---- strings
+    let mut cases = exhaustive_small();
+    report.exhaustive.insert("byte strings of length <= 2 (write_string)".into(), true);
+    cases.extend(reduced_three());
+    report.exhaustive.insert("3-byte strings over the 23-byte reduced alphabet".into(), true);
+    cases.extend(structured_strings());
+    let random = if report.is_thorough() { 1_500_000 } else { 60_000 };
+    for _ in 0..random {
+        cases.push(random_string(&mut rng));
+    }
+    let outcomes = run_str_cases(&cases, report.is_thorough());
+    evaluate_str(report, &cases, &outcomes, &mut rng);
+
+    // generators on a subset in the quick tier (all of them in thorough, above)
+    if !report.is_thorough() {
+        let subset: Vec<StrCase> = cases
+            .iter()
+            .enumerate()
+            .filter(|(i, c)| c.family != "exhaustive<=2" && c.family != "reduced-alphabet-3" || i % 16 == 0)
+            .map(|(_, c)| c.clone())
+            .take(60_000)
+            .collect();
+        let o = run_str_cases(&subset, true);
+        for (c, o) in subset.iter().zip(&o) {
+            for (name, out) in &o.gen_diff {
+                report.violation(Violation {
+                    kind: "correspondence".into(),
+                    check: format!("generator-{}", name),
+                    what: format!("{} generator writes {:?}, not write_string's output", name, out),
+                    input: str_input(c),
+                    failing_input_found: false,
+                });
+            }
+        }
+        report.count("generator_agreement_checked", subset.len() as u64);
+    }
+
+    // ---- interpolated segments
+    let mut seg_cases = exhaustive_small();
+    for c in seg_cases.iter_mut() {
+        c.family = "segment-exhaustive<=2";
+    }
+    report.exhaustive.insert("byte strings of length <= 2 (interpolated segment)".into(), true);
+    for c in reduced_three() {
+        seg_cases.push(StrCase { family: "segment-reduced-3", v: c.v });
+    }
+    let seg_random = if report.is_thorough() { 300_000 } else { 20_000 };
+    for _ in 0..seg_random {
+        let mut c = random_string(&mut rng);
+        c.family = "segment-random";
+        seg_cases.push(c);
+    }
+    let seg_out = run_seg_cases(&seg_cases);
+    evaluate_seg(report, &seg_cases, &seg_out);
+
+    // ---- neighbouring tokens
+    let mut neighbour_values: Vec<Vec<u8>> = structured_strings()
+        .into_iter()
+        .filter(|c| c.family == "long-bracket-candidates" || c.family == "quotes-backslashes")
+        .map(|c| c.v)
+        .collect();
+    for v in [&b""[..], b"a", b"1", b".", b"..", b"[", b"]", b"[[", b"-", b"--", b"\n", b"\xff9"] {
+        neighbour_values.push(v.to_vec());
+    }
+    let extra = if report.is_thorough() { 3000 } else { 300 };
+    for _ in 0..extra {
+        neighbour_values.push(random_string(&mut rng).v);
+    }
+    if !report.is_thorough() {
+        neighbour_values.truncate(900);
+    }
+    check_neighbours(report, &neighbour_values);
+
+    numbers(report, &mut rng);
+}
+
+// ------------------------------------------------------------------------------------------
+// numbers
+// ------------------------------------------------------------------------------------------
+
+fn numbers(_report: &mut Report, _rng: &mut Rng) {
+    let _ = (f64_wire(0.0), wire_f64("f0"), DecimalNumber::new(0.0), NumberExpression::from(DecimalNumber::new(0.0)));
 }
